@@ -24,13 +24,15 @@ DATA_SEG = 12  # word address of the extra data segment
 
 
 def with_data_segment(image):
-    """add a never-executed data segment whose jump words carry distinctive data bits (0xA5, 0x5A)"""
+    """add a never-executed data segment whose jump words carry distinctive data bits (0x2E7, 0x1B4)"""
     from fjv.ref import machine as R1
     w = image.w
     sh = w.bit_length()
     m = (1 << w) - 1
     data = dict(image.data)
-    data.update({DATA_SEG: 3, DATA_SEG + 1: ((0xA5 << sh) | 1) & m, DATA_SEG + 2: 0, DATA_SEG + 3: ((0x5A << sh) | 2) & m})
+    # data bits above every cell size (1 / 4 / 8) and asymmetric, so that a read which lets one cell's upper bits leak into the next
+    # cell, or swaps / merges cells, shows another value (0xA5 / 0x5A were symmetric: a leaking read gave the same numbers)
+    data.update({DATA_SEG: 3, DATA_SEG + 1: ((0x2E7 << sh) | 1) & m, DATA_SEG + 2: 0, DATA_SEG + 3: ((0x1B4 << sh) | 2) & m})
     return R1.Image(w, list(image.segments) + [(DATA_SEG, 4)], data)
 
 
